@@ -1,6 +1,6 @@
 SPECIFICATION TraceSpec
 CONSTANTS Kinds = {"smm"} NModels = {2} LVals = {0} Layouts = {0}
-CONSTANTS MaxUpdates = 3 BigN = 99 NoObsAt = {1} KeepHist = FALSE
+CONSTANTS MaxUpdates = 3 BigN = 99 GpbBigN = 99 NoObsAt = {1} KeepHist = FALSE
 CONSTANT Thresholds <- ThQuick
 CONSTANT Pcts <- PctQuick
 CONSTANT MixRatios <- MixQuick
